@@ -1,7 +1,7 @@
 /-
   C09 — equivalence lists: symmetry under removeAllEquivalences, absence of duplicates; the step theorem.
 -/
-import Cellml.Heap.Acyclic
+import Cellml.Heap.Replace
 namespace Cellml.Heap
 variable {kindOf : Nat → CK}
 
@@ -175,6 +175,8 @@ theorem step_equiv_frame (look : Look) (nameOf : Nat → String) (fuel : Nat) (h
   · unfold removePtr; split <;> rfl
   · unfold removeName; split <;> rfl
   · rfl
+  · exact replaceComponent_equiv look fuel h _ _ _
+  · exact replaceUnits_equiv look h _ _ _
 
 /-- C09 step theorem: every valid operation preserves the ownership invariant -/
 theorem step_inv (look : Look) (nameOf : Nat → String) (fuel : Nat) (h : Heap) (op : Op)
@@ -196,6 +198,8 @@ theorem step_inv (look : Look) (nameOf : Nat → String) (fuel : Nat) (h : Heap)
   | removeEquivalence v w => exact ⟨removeEquivalence_inv h v w hi hnd, eqNodup_remove h v w hnd⟩
   | removeAllEquivalences v => exact ⟨removeAllEquivalences_inv h v hi hnd, eqNodup_removeAll h v hnd⟩
   | release v => exact ⟨release_inv h v hi hnd, eqNodup_release h v hnd⟩
+  | replaceComponent c i x => exact ⟨replaceComponent_inv look fuel h c i x hi hv, frame rfl⟩
+  | replaceUnits m i x => exact ⟨replaceUnits_inv look h m i x hi hv, frame rfl⟩
 
 /-- C09: the invariant holds after every history of valid operations -/
 theorem run_inv (look : Look) (nameOf : Nat → String) (fuel : Nat) (ops : List Op) :
